@@ -568,16 +568,18 @@ class SimplifyingSortingStringifyMapper(StringifyMapper):
         def get_neg_product(expr):
             from numbers import Integral
 
-            from pymbolic.primitives import Product, is_zero
+            from pymbolic.primitives import Product
 
             # Only an integer -1 may be turned into a subtraction: dropping
             # a factor of -1.0 changes the type of the term in typed target
             # languages ('(a + (-1.0)*b) / 2' vs. the integer division
             # '(a - b) / 2' for integer a, b in C).
+            # Compare with -1 instead of adding 1 and testing for zero:
+            # numpy.uint8(255) + 1 wraps around to 0.
             if isinstance(expr, Product) \
                     and len(expr.children) \
                     and isinstance(expr.children[0], Integral) \
-                    and is_zero(expr.children[0]+1):
+                    and expr.children[0] == -1:
                 if len(expr.children) == 2:
                     # only the minus sign and the other child
                     return expr.children[1]
